@@ -458,7 +458,7 @@ class Region(object):
             array of (ra,dec) coordinates.
         """
         try:
-            sky = np.array(list(zip(ra, dec)))
+            sky = np.array(list(zip(ra, dec))).reshape(-1, 2)
         except TypeError:
             sky = np.array([(ra, dec)])
         return sky
